@@ -311,12 +311,95 @@ class _PercentTuple(ast.NodeTransformer):
         return node
 
 
+def _and_returns(tree):
+    """``if A: return B`` directly followed by ``return False`` (B an
+    expression that is not a constant) is ``return A and B`` - the form a
+    two-sided test is usually written in."""
+    for node in ast.walk(tree):
+        for fld in ('body', 'orelse', 'finalbody'):
+            blk = getattr(node, fld, None)
+            if not (isinstance(blk, list) and blk and
+                    isinstance(blk[0], ast.stmt)):
+                continue
+            i = 0
+            while i + 1 < len(blk):
+                a, b = blk[i], blk[i + 1]
+                if isinstance(a, ast.If) and not a.orelse and \
+                        len(a.body) == 1 and isinstance(
+                            a.body[0], ast.Return) and \
+                        a.body[0].value is not None and not isinstance(
+                            a.body[0].value, ast.Constant) and \
+                        isinstance(b, ast.Return) and isinstance(
+                            b.value, ast.Constant) and b.value.value is False:
+                    new = ast.copy_location(ast.Return(value=ast.BoolOp(
+                        op=ast.And(), values=[a.test, a.body[0].value])), a)
+                    blk[i:i + 2] = [new]
+                    continue
+                i += 1
+
+
+def _flag_tests(tree):
+    """``f = False`` / ``if C: f = True`` / ``if f: ...`` in a row, f used
+    nowhere else: the third statement tests C."""
+    for fn in ast.walk(tree):
+        if not isinstance(fn, (ast.FunctionDef, ast.AsyncFunctionDef)):
+            continue
+        uses = {}
+        for n in ast.walk(fn):
+            if isinstance(n, ast.Name):
+                uses[n.id] = uses.get(n.id, 0) + 1
+        for node in ast.walk(fn):
+            for fld in ('body', 'orelse', 'finalbody'):
+                blk = getattr(node, fld, None)
+                if not (isinstance(blk, list) and blk and
+                        isinstance(blk[0], ast.stmt)):
+                    continue
+                i = 0
+                while i + 2 < len(blk):
+                    a, b, c = blk[i:i + 3]
+                    ok = isinstance(a, ast.Assign) and len(a.targets) == 1 \
+                        and isinstance(a.targets[0], ast.Name) and \
+                        isinstance(a.value, ast.Constant) and \
+                        a.value.value is False
+                    f = a.targets[0].id if ok else None
+                    ok = ok and isinstance(b, ast.If) and not b.orelse and \
+                        len(b.body) == 1 and isinstance(
+                            b.body[0], ast.Assign) and \
+                        len(b.body[0].targets) == 1 and isinstance(
+                            b.body[0].targets[0], ast.Name) and \
+                        b.body[0].targets[0].id == f and isinstance(
+                            b.body[0].value, ast.Constant) and \
+                        b.body[0].value.value is True and not any(
+                            isinstance(x, ast.Name) and x.id == f
+                            for x in ast.walk(b.test))
+                    neg = False
+                    if ok and isinstance(c, ast.If):
+                        t = c.test
+                        if isinstance(t, ast.UnaryOp) and isinstance(
+                                t.op, ast.Not):
+                            neg, t = True, t.operand
+                        ok = isinstance(t, ast.Name) and t.id == f and \
+                            uses.get(f, 0) == 3
+                    else:
+                        ok = False
+                    if ok:
+                        c.test = ast.UnaryOp(op=ast.Not(), operand=b.test) \
+                            if neg else b.test
+                        ast.copy_location(c.test, c)
+                        blk[i:i + 3] = [c]
+                        continue
+                    i += 1
+
+
 def normalise(tree):
     _FormatToPercent().visit(tree)
     _IfExpToIf().visit(tree)
+    _and_returns(tree)
     _ConstRight().visit(tree)
     _NNF().visit(tree)
     _MergeIfs().visit(tree)
+    _flag_tests(tree)
+    _NNF().visit(tree)
     for n in ast.walk(tree):
         if isinstance(n, (ast.FunctionDef, ast.AsyncFunctionDef)):
             _sink_returns(n)
